@@ -51,12 +51,14 @@ Definition ends_in_mk (x : var) : bool :=
   | _ => false
   end.
 
-(* TrackBefore *)
+(* mkline == ind.guardLine *)
+Definition is_guard_line (guard_line : option nat) (idx : nat) : bool :=
+  match guard_line with Some g => Nat.eqb g idx | None => false end.
+
+(* TrackBefore (isBuildlink3Guard: no buildlink3.mk in this fragment) *)
 Definition track_before (guard_line : option nat) (lv : levels) (idx : nat) (b : dbody) : levels :=
   match b with
-  | DIf _ _ =>
-      mkLevel (match guard_line with Some g => Nat.eqb g idx | None => false end) [] :: lv
-  | DFor _ _ => mkLevel false [] :: lv
+  | DIf _ _ | DFor _ _ => mkLevel (is_guard_line guard_line idx) [] :: lv
   | _ => lv
   end.
 
